@@ -40,18 +40,29 @@ static void div_case(void) {
     if (op != 0) { lp_polynomial_t* s = hp_random_poly(ri, 1, 1, 2); lp_polynomial_add(A, A, s); lp_polynomial_delete(s); }
     else { lp_polynomial_mul(A, Q0, B); }
   }
+  if (chance(8)) {  /* constant / constant */
+    lp_integer_t ca, cb; lp_integer_construct_from_int(lp_Z, &cb, chance(50) ? rnd_in(1, 6) : -rnd_in(1, 6));
+    lp_integer_construct_from_int(lp_Z, &ca, rnd_in(-9, 9)); if (op == 0) lp_integer_mul(lp_Z, &ca, &ca, &cb);
+    lp_polynomial_t* ta = lp_polynomial_alloc(); lp_polynomial_construct_simple(ta, hp_ctx[ri], &ca, hp_x[0], 0);
+    lp_polynomial_t* tb = lp_polynomial_alloc(); lp_polynomial_construct_simple(tb, hp_ctx[ri], &cb, hp_x[0], 0);
+    lp_polynomial_assign(A, ta); lp_polynomial_assign(B, tb);
+    lp_polynomial_delete(ta); lp_polynomial_delete(tb); lp_integer_destruct(&ca); lp_integer_destruct(&cb);
+    if (lp_polynomial_is_zero(B)) { lp_polynomial_delete(A); lp_polynomial_delete(B); lp_polynomial_delete(Q0); lp_polynomial_delete(R0); return; }
+    if (op > 2) op = 2;
+  }
   /* the documented domain: main variable of the divisor not above that of the dividend, dividend non-constant for reductions */
   long xa = topvar(A), xb = topvar(B);
   int ok_dom = xa >= 0 && (xb < 0 || lp_variable_order_cmp(hp_order, (lp_variable_t)xb, (lp_variable_t)xa) <= 0);
-  lp_polynomial_t* D = lp_polynomial_new(hp_ctx[ri]); lp_polynomial_t* R = lp_polynomial_new(hp_ctx[ri]);
-  lp_polynomial_t* P = lp_polynomial_new(hp_ctx[ri]);
+  /* outputs in every prior state: fresh, constant, polynomial of another shape */
+  lp_polynomial_t* D = hp_dest(ri, rnd(3)); lp_polynomial_t* R = hp_dest(ri, rnd(3));
+  lp_polynomial_t* P = hp_dest(ri, rnd(3));
 #define HEAD(nm) sb_begin("div", nm); sb_sp(); hp_ring_token(ri); sb_sp(); sb_long(xa); sb_sp(); sb_poly(A); sb_sp(); sb_poly(B); sb_arrow()
   switch (op) {
   case 0: if (!ok_dom && !(xa < 0 && xb < 0)) break;
-    if (xa < 0 && ri == 0) break;
+    if (xa < 0 && xb >= 0) break;
     HEAD("div"); lp_polynomial_div(D, A, B); sb_sp(); sb_poly(D); sb_emit(); break;
-  case 1: if (!ok_dom || xa != xb) break; HEAD("rem"); lp_polynomial_rem(R, A, B); sb_sp(); sb_poly(R); sb_emit(); break;
-  case 2: if (!ok_dom || xa != xb) break; HEAD("divrem"); lp_polynomial_divrem(D, R, A, B); sb_sp(); sb_poly(D); sb_sp(); sb_poly(R); sb_emit(); break;
+  case 1: if ((!ok_dom || xa != xb) && !(xa < 0 && xb < 0)) break; HEAD("rem"); lp_polynomial_rem(R, A, B); sb_sp(); sb_poly(R); sb_emit(); break;
+  case 2: if ((!ok_dom || xa != xb) && !(xa < 0 && xb < 0)) break; HEAD("divrem"); lp_polynomial_divrem(D, R, A, B); sb_sp(); sb_poly(D); sb_sp(); sb_poly(R); sb_emit(); break;
   case 3: if (!ok_dom) break; HEAD("prem"); lp_polynomial_prem(R, A, B); sb_sp(); sb_poly(R); sb_emit(); break;
   case 4: if (!ok_dom) break; HEAD("pdivrem"); lp_polynomial_pdivrem(D, R, A, B); sb_sp(); sb_poly(D); sb_sp(); sb_poly(R); sb_emit(); break;
   case 5: if (!ok_dom) break; HEAD("sprem"); lp_polynomial_sprem(R, A, B); sb_sp(); sb_poly(R); sb_emit(); break;
